@@ -313,8 +313,22 @@ def run(ctx):
                                 v_ = W.const_val(ebc.operand(o))
                                 if v_ is not None:
                                     consts.add(v_)
-            if {10, 13} <= consts:
+            # decide the closure for b = 13, b = 10 and an unrelated byte (three-row table)
+            table_ok = True
+            for cl in facts.closures_of(hl.path):
+                sites = [bb for bb, j, st in hl.stmts() if st["k"] == "assign" and st["rv"].get("closure") == cl.path]
+                if not (sites and not guarded(hl, sites, swh, True)):
+                    continue
+                for val, want in ((13, 1), (10, 1), (97, 0)):
+                    sx = Sccp(cl).run([(0, {(2, ()): I(val)})])
+                    got = {x for v_ in sx.ret_values.values() for x in value_set(v_)}
+                    if got != {I(want)}:
+                        table_ok = False
+            if {10, 13} <= consts and table_ok:
                 r.ok("gate|crlf", "has_line_terminator: under CRLF a literal containing \\r or \\n is not a fixed string", fn=hl)
+            elif {10, 13} <= consts:
+                r.bad("gate|crlf", "has_line_terminator's CRLF test is not `b == \\r || b == \\n` (its three-row table differs): a fixed-strings "
+                      "pattern containing a terminator byte skips stripping", fn=hl, construct="has_line_terminator")
             else:
                 r.bad("gate|crlf", "has_line_terminator tests only %s under CRLF: a fixed-strings pattern containing the other "
                       "terminator byte skips stripping and can match the terminator" % sorted(consts), fn=hl, construct="has_line_terminator")
@@ -333,7 +347,7 @@ def run(ctx):
     with ctx.rule("C11.EXACT", "exactness bookkeeping of the inner-literal extractor", floor=9, kind="PASS/GUARD") as r:
         exact_rule(ctx, r)
     with ctx.rule("C11.GATE", "no extraction without a terminator; terminator withheld under haystack anchors; candidate/confirmed sources",
-                  floor=4, kind="GUARD/ARMS") as r:
+                  floor=5, kind="GUARD/ARMS") as r:
         gate_rule(ctx, r)
 
 
@@ -484,6 +498,21 @@ def gate_rule(ctx, r):
             r.bad("anchors", "ConfiguredHIR::line_terminator promises a terminator despite haystack anchors", fn=h, construct="anchors")
     else:
         r.bad("anchors", "the terminator promise no longer depends on haystack anchors", fn=h, construct="anchors")
+    # the sibling accessor: when the terminator promise is withheld, the terminator must not come back through
+    # non_matching_bytes() — the searcher admits its fast line path on either of the two answers
+    nb = facts.fn(R + "::config::ConfiguredHIR::non_matching_bytes")
+    ebn = ExprBuilder(nb)
+    an2 = cond_switches(nb, lambda e: e.k == "call" and e[1].endswith("LookSet::contains_anchor_haystack") and
+                        any(x.k == "call" and x[1].endswith("Properties::look_set") for x in walk(e)), ebn)
+    rem = [c for c in nb.calls() if c.path.endswith("ByteSet::remove") and
+           mentions_call(ebn.operand(c.args[1]), "grep_matcher::LineTerminator::as_bytes", "grep_matcher::LineTerminator::as_byte")]
+    if an2 and rem and not guarded(nb, [c.bb for c in rem], an2, True) and \
+            all(c.bb in C.reach(nb, [an2[0][1][1]]) for c in rem):
+        r.ok("anchors|non_matching", "haystack anchors ⇒ the configured terminator is taken out of non_matching_bytes()", fn=nb)
+    else:
+        r.bad("anchors|non_matching", "with \\A / \\z in the pattern line_terminator() is withheld, but non_matching_bytes() still "
+              "lists the configured terminator (only \\n is special-cased): with --null-data the searcher takes the fast line path and "
+              "evaluates the anchors against the scan position, passing over matching records", fn=nb, construct="anchors")
     k = facts.fn("<%s::matcher::RegexMatcher as grep_matcher::Matcher>::find_candidate_line" % R)
     ebk = ExprBuilder(k)
     LMK = "grep_matcher::LineMatchKind"
